@@ -269,6 +269,11 @@ func (g *CondGen) Leaf() *refmodel.Cond {
 	switch r.Intn(10) {
 	case 0, 1, 2, 3:
 		cmp := Pick(r, []string{"=", "<>", "<", "<=", ">", ">="})
+		if r.Intn(8) == 0 {
+			l := refmodel.Operand{Kind: "size", Path: g.path()}
+			rt := g.newVal(val.Num(Pick(r, []string{"0", "1", "2", "3"})))
+			return &refmodel.Cond{Op: "cmp", Cmp: cmp, Args: []refmodel.Operand{l, rt}}
+		}
 		l := g.pathOp()
 		var rt refmodel.Operand
 		switch r.Intn(6) {
@@ -276,10 +281,6 @@ func (g *CondGen) Leaf() *refmodel.Cond {
 			rt = g.pathOp()
 		default:
 			rt = g.newVal(Value(r, 1, g.Opts))
-		}
-		if r.Intn(8) == 0 {
-			l = refmodel.Operand{Kind: "size", Path: g.path()}
-			rt = g.newVal(val.Num(Pick(r, []string{"0", "1", "2", "3"})))
 		}
 		return &refmodel.Cond{Op: "cmp", Cmp: cmp, Args: []refmodel.Operand{l, rt}}
 	case 4:
